@@ -456,29 +456,35 @@ func fixedCases(c *Ctx) {
 	}
 	// every varint width step of the section length in one DAG: root{l0..l7 -> raw leaves whose
 	// |cid|+|data| is 127, 128, 129, 16383, 16384, 16385, 20000, 32767}; thorough adds 2 MiB -1 / +0
-	lens := boundaryLens
-	if c.Thorough {
-		lens = append(append([]int(nil), lens...), 2097151, 2097152)
+	type bcase struct {
+		lens []int
+		apis []uint64
 	}
-	var bl []*dnode
-	for i, t := range lens {
-		d := bytes.Repeat([]byte{byte(i + 1)}, t-36)
-		bl = append(bl, &dnode{c: mkCid(1, cid.Raw, mh.SHA2_256, -1, d), data: d})
+	bcases := []bcase{{boundaryLens, []uint64{0, 1, 2, 3, 4}}}
+	if c.Thorough { // the 4-byte varint step; only where the legacy LdSize / the v2 loader count it
+		bcases = append(bcases, bcase{[]int{2097151, 2097152}, []uint64{0, 3}})
 	}
-	broot := cborNode(bl...)
-	bstore := []Blk{{broot.c, broot.data}}
-	for _, n := range bl {
-		bstore = append(bstore, Blk{n.c, n.data})
-	}
-	for api := uint64(0); api <= 4; api++ {
-		ncbs := [][2]uint64{{1, 1}}
-		if api == 3 {
-			ncbs = [][2]uint64{{1, 1}, {2, 3}}
+	for _, bc := range bcases {
+		var bl []*dnode
+		for i, t := range bc.lens {
+			d := bytes.Repeat([]byte{byte(i + 1)}, t-36)
+			bl = append(bl, &dnode{c: mkCid(1, cid.Raw, mh.SHA2_256, -1, d), data: d})
 		}
-		for _, nc := range ncbs {
-			tc := &travCase{api: api, roots: []cid.Cid{broot.c}, sel: all, opts: travOpts{dups: api%2 == 0, ncbW: nc[0], ncbD: nc[1]}, store: bstore}
-			emitTrav(c, tc, func(Val) bool { return true })
-			c.Count("fixed:varint-boundary-blocks")
+		broot := cborNode(bl...)
+		bstore := []Blk{{broot.c, broot.data}}
+		for _, n := range bl {
+			bstore = append(bstore, Blk{n.c, n.data})
+		}
+		for _, api := range bc.apis {
+			ncbs := [][2]uint64{{1, 1}}
+			if api == 3 && len(bc.lens) > 2 {
+				ncbs = [][2]uint64{{1, 1}, {2, 3}}
+			}
+			for _, nc := range ncbs {
+				tc := &travCase{api: api, roots: []cid.Cid{broot.c}, sel: all, opts: travOpts{dups: api%2 == 0, ncbW: nc[0], ncbD: nc[1]}, store: bstore}
+				emitTrav(c, tc, func(Val) bool { return true })
+				c.Count("fixed:varint-boundary-blocks")
+			}
 		}
 	}
 	// the padding boundary set on every v2 entry point (TraverseV1 must ignore paddings)
